@@ -1,7 +1,30 @@
-"""Regenerates coq/Gen/*.v from the current /repo working tree (fail-closed)."""
-import os
+"""Regenerates coq/Gen/*.v from the current source tree (fail-closed).
+
+Dispatcher: every module tools/translate/gen_<name>.py exposing
+`generate(repo, gen_dir) -> dict` is called; an exception in one module is
+recorded in the report (key '<name>': {'error': ...}) and never propagates.
+Modules must write files only when their content changes (write_if_changed)."""
+import importlib, os, pkgutil, traceback
+
+
+def write_if_changed(path, text):
+    if os.path.exists(path) and open(path).read() == text:
+        return False
+    with open(path, 'w') as f:
+        f.write(text)
+    return True
+
 
 def generate(repo, gen_dir):
     report = {}
     os.makedirs(gen_dir, exist_ok=True)
+    here = os.path.dirname(os.path.abspath(__file__))
+    for m in sorted(pkgutil.iter_modules([here])):
+        if not m.name.startswith('gen_') or m.name == 'gen_all':
+            continue
+        try:
+            mod = importlib.import_module('translate.' + m.name)
+            report[m.name] = mod.generate(repo, gen_dir)
+        except Exception as e:
+            report[m.name] = {'error': repr(e), 'trace': traceback.format_exc()[-800:]}
     return report
